@@ -671,6 +671,10 @@ pub fn analyze(sc: &Scenario, out: &RunOut) -> Analysis {
                 let l = port_map[*node][*port];
                 lists[l].push(Conn::To { node: *target, mode: Mode::Plain });
             }
+            Ev::ConnectVia { node, port, conn } => {
+                let l = port_map[*node][*port];
+                lists[l].push(*conn);
+            }
             Ev::Fault { node, kind } => faults_in_cmd.push((*node, *kind)),
             Ev::TimeRead { node, t } => {
                 if *t != now {
